@@ -38,7 +38,7 @@ import numpy as np
 from .. import common, refdata, execlib
 
 U = 2.0 ** -53
-TOL_INT, EST_MAX = 1e-9, 1e-11
+TOL_INT, EST_MAX = 2e-11, 1e-13      # the closed form and the truncated series agree with the integral to 4.5e-12 on the pinned tree (worst, at the series switch); quadrature estimate 2e-15
 TOL_AVG, TOL_BOUND, TOL_FORM = 1e-12, 1e-12, 1e-12
 DELTA = 1.5e-15          # |fl(x + 2 pi m) - (x + 2 pi m)| for x in [0, 2pi], m in {-1, 1, 2}: half an ulp of 16 plus m times the error of fl(2pi)
 
